@@ -31,6 +31,8 @@ def corrupt_session_traces():
     cases["post-TLS announcement changed to LOGIN"] = (t, "MechFromPostTLSCaps")
     t = json.loads(json.dumps(good)); t[8][3] = "NO"
     cases["reply NO but connect returned true"] = (t, "ConnectTrueWithoutOK")
+    t = good[:7] + [["ret", "false"]]
+    cases["connect gives up without writing AUTHENTICATE although PLAIN is announced after TLS"] = (t, "MechAvailableNotTried")
     names = list(cases)
     got, res = S.validate([cases[n][0] for n in names])
     rows = []
